@@ -64,7 +64,7 @@ func (g *ExecutionGraph) addEdge(from string, to string) error {
 	g.from[from] = append(g.from[from], to)
 	g.to[to] = append(g.to[to], from)
 
-	if err := g.cycleDfs(to, make(map[string]bool)); err != nil {
+	if err := g.cycleDfs(to, make(map[string]bool), make(map[string]bool)); err != nil {
 		return err
 	}
 
@@ -96,18 +96,26 @@ func (g *ExecutionGraph) To(name string) []string {
 	return g.to[name]
 }
 
-func (g *ExecutionGraph) cycleDfs(t string, visited map[string]bool) error {
-	if visited[t] {
+// cycleDfs reports a cycle only when it meets a stage that is still on the current DFS path;
+// a stage reached again through another path (a re-convergent DAG) is not a cycle.
+func (g *ExecutionGraph) cycleDfs(t string, onPath, done map[string]bool) error {
+	if onPath[t] {
 		return ErrCycleDetected
 	}
-	visited[t] = true
+	if done[t] {
+		return nil
+	}
+	onPath[t] = true
 
 	for _, next := range g.from[t] {
-		err := g.cycleDfs(next, visited)
+		err := g.cycleDfs(next, onPath, done)
 		if err != nil {
 			return err
 		}
 	}
+
+	onPath[t] = false
+	done[t] = true
 
 	return nil
 }
